@@ -58,6 +58,17 @@ def cases(rng, tier):
     for st in list(STEPS) + ["c", "H"]:
         for al in range(-3, 4):
             yield {"k": "tno", "step": st, "alter": al}
+    # chord-root / local-key arithmetic: SEQUENCES of process_local_key calls (the result of a call must not depend
+    # on the calls made before it) and RomanNumeral roots computed twice
+    m = 60 if tier == "quick" else 1500
+    degs = ["i", "ii", "iii", "iv", "v", "vi", "vii"]
+    for _ in range(m):
+        calls = []
+        for _ in range(rng.randint(4, 12)):
+            dg = rng.choice(degs)
+            dg = dg.upper() if rng.random() < 0.5 else dg
+            calls.append([rng.choice(["", "", "b", "#"]) + dg, rng.choice(["C", "G", "F", "D", "Bb", "Eb", "a", "e", "d", "g", "f#", "c"])])
+        yield {"k": "lockey", "calls": calls}
     n = 40 if tier == "quick" else 1500
     ivs = all_intervals()
     for i in range(n):
@@ -130,6 +141,41 @@ def evaluate(d):
                     ev.oracle.append("transpose_note(%s,%d,%s%d) = %r but note transposition gives %s%s" % (
                         st, al, q, n, r, note.step, note.alter))
         ev.key = "tno:%s:%d" % (st, al)
+    elif k == "lockey":
+        import partitura.utils.globals as GL
+
+        LADDER_P = ["dd", "d", "P", "A", "AA"]
+        LADDER_I = ["dd", "d", "m", "M", "A", "AA"]
+        for loc, glob in d["calls"]:
+            r, e = call(S.process_local_key, loc, glob, True)
+            sharps, flats = loc.count("#"), loc.count("b")
+            deg = loc.replace("#", "").replace("b", "").lower()
+            num, qual = GL.LOCAL_KEY_TRASPOSITIONS_DCML["minor" if glob.islower() else "major"][deg]
+            ladder = LADDER_P if num in (1, 4, 5) else LADDER_I
+            qi = ladder.index(qual) + sharps - flats
+            kstep = glob[0].upper()
+            kalt = {"": 0, "#": 1, "b": -1}[glob[1:2]]
+            if not (0 <= qi < len(ladder)):
+                continue
+            q2 = ladder[qi]
+            ev.requests.append("tno %s %d %s %d" % (kstep, kalt, W.s(q2), num))
+            ev.impl.append("err" if e else W.f_tuple(r[0], W.f_int(r[1])))
+            # independent diatonic arithmetic
+            i0 = STEPS.index(kstep)
+            i1 = (i0 + num - 1) % 7
+            exp_alt = semis(q2, num) - ((BASE[STEPS[i1]] - BASE[kstep]) % 12) + kalt
+            if -3 < exp_alt < 3:
+                if e or (r[0], r[1]) != (STEPS[i1], exp_alt):
+                    ev.oracle.append("local key: process_local_key(%r, %r) = %r, diatonic arithmetic gives (%s, %d) [call sequence %s]" % (
+                        loc, glob, e or r, STEPS[i1], exp_alt, d["calls"]))
+                    break
+        # a Roman numeral's root must not depend on how often it was computed
+        for txt in ("G:V65/bIII", "C:V7/bVII", "a:viio/#vi"):
+            a, e1 = call(lambda: S.RomanNumeral(txt).root)
+            b, e2 = call(lambda: S.RomanNumeral(txt).root)
+            if (e1 is None) != (e2 is None) or (e1 is None and a != b):
+                ev.oracle.append("roman numeral: root of %r is %r the first time and %r the second" % (txt, e1 or a, e2 or b))
+        ev.key = "lockey:" + "|".join(l + "/" + g for l, g in d["calls"])
     elif k == "part":
         rng = random.Random(d["seed"])
         sd = G.random_score_desc(rng, nparts=1 if d["as_part"] else rng.randint(1, 3), p_unp=0.05, p_tie=0.3)
